@@ -22,7 +22,7 @@ def terms_ok(C, X):
     aX = abs(X)
     for i, c in enumerate(C):
         if c != 0:
-            if not in_domain(abs(c) * aX ** i):
+            if not in_domain(abs(c) * aX ** i) or not in_domain(abs(c)):
                 return False
             if i and aX != 0 and not in_domain(aX ** i):
                 return False
